@@ -130,6 +130,7 @@ Proof.
     intros ss; destruct ss; [apply nohop_fail|apply nohop_ret].
   - apply nohop_fail.
   - apply nohop_ret.
+  - apply nohop_fail.
   - apply nohop_bind; [apply nohop_read_u16|intros; apply nohop_ret].
   - apply nohop_bind; [apply nohop_while; intros; apply nohop_bind; [apply nohop_read_octets|intros; apply nohop_ret]|intros; apply nohop_ret].
   - apply nohop_bind; [apply nohop_while; intros; apply nohop_bind; [apply nohop_read_aaaa|intros; apply nohop_ret]|intros; apply nohop_ret].
@@ -146,6 +147,7 @@ Proof.
            destruct ss; [apply (okA 9 0 _ _ _ (ok_fail _ 0)); lia|apply (okA 9 0 _ _ _ (ok_ret _)); lia]).
   - ok_by (apply (okA 9 0 _ _ _ (ok_fail _ 0)); lia).
   - ok_by (apply (okA 9 0 _ _ _ (ok_ret _)); lia).
+  - ok_by (apply (okA 9 0 _ _ _ (ok_fail _ 0)); lia).
   - ok_by (ok_go 9).
   - ok_by (eapply ok_bind; [apply (ok_weaken 5 5 0 9 9 0); [apply (ok_while 0 4 4); [intros; ok_by (eapply ok_bind; [apply (ok_read_octets_const 4)|intros; apply ok_ret])|lia]|lia..]|intros; apply (okA 9 0 _ _ _ (ok_ret _)); lia]).
   - ok_by (eapply ok_bind; [apply (ok_weaken 9 9 0 9 9 0); [apply (ok_while 0 8 16); [intros; ok_by (eapply ok_bind; [apply ok_read_aaaa|intros; apply ok_ret])|lia]|lia..]|intros; apply (okA 9 0 _ _ _ (ok_ret _)); lia]).
